@@ -125,5 +125,19 @@ pub fn run() -> bool {
         msgs.insert(format!("{:?}", r));
     }
     rec("D13", msgs.len() == 1, "C12 lazy duplicate-scoped-variable error must be deterministic", format!("{} distinct messages", msgs.len()));
+    // 14 full-match capture lost: four captures on one node (tree-sitter keeps three), quantified root
+    for (id, tsg) in [("D14a", "(module) @_a @_b @_c { node n }"), ("D14b", "(pass_statement)* @_m { node n }")] {
+        let s = exec(tsg, "pass", false, false);
+        let l = exec(tsg, "pass", true, false);
+        rec(id, s.is_ok() && l.is_ok(), "C05 a stanza whose full-match capture is lost must not panic", format!("strict={:?} lazy={:?}", s, l));
+    }
+    let tsg = "(module) @_a @_b @_c { node n }";
+    let s = exec(tsg, "pass", false, true);
+    rec("D14c", s.is_ok(), "C05 lost full-match capture with debug attributes must not panic", format!("strict={:?}", s));
+    // 15 capture inside a shorthand body (never checked): unreachable!()
+    let tsg = "attribute sh = x => k = @m\n(module) @_m { node n attr (n) sh = 1 }";
+    let s = exec(tsg, "pass", false, false);
+    let l = exec(tsg, "pass", true, false);
+    rec("D15", s.is_ok() && l.is_ok(), "C05 a capture inside an attribute shorthand must not panic", format!("strict={:?} lazy={:?}", s, l));
     all
 }
